@@ -32,7 +32,9 @@ HARNESSES = [
 GROUPS = {"body": "check_body", "big": "check_big", "reload": "check_reload"}
 EXPLAIN = {"body": "explain_body", "big": "explain_big", "reload": "explain_reload"}
 CASES = {"quick": 500, "thorough": 6000}
-RULE = ("reload histories also reload the PIPELINE (Pipeline.Inherit -> Proxy.Inherit) when pool / proxy serverMaxBodySize or the pool's memoryCache spec change between "
+RULE = ("pool histories (1 in 200, one processor, GC off): a chunked response of 1.3 MB - withheld by a 1.1 MB limit or delivered under the 4 MB default - followed by small "
+        "chunked / close-delimited responses through the same process; slow uploads (1 in 90) through the package's real runtime with keepAliveTimeout 20-50 ms and a "
+        "within-limit body sent steadily for 2-3 times that long; reload histories also reload the PIPELINE (Pipeline.Inherit -> Proxy.Inherit) when pool / proxy serverMaxBodySize or the pool's memoryCache spec change between "
         "steps: cacheable GETs answered and cached, the limit lowered / raised / unchanged with the cache spec kept or changed, the same GET again, response bodies at and "
         "around both limits; limits include negative values other than -1 (-2, -1024, MinInt64+1: any negative streams); one case in 10 (and 1 in 5 of the ordinary ones) has a "
         "mirrorPool on a second recording backend whose filter matches requests carrying X-Mirror, with streamed and buffered, announced and chunked uploads up to 70000 bytes; "
@@ -115,15 +117,47 @@ class _Pool:
         self.names = {}
         self.defs = []
 
+    def _packed(self, bs):
+        words = [str(int.from_bytes(bs[k:k + 7], "big")) for k in range(0, len(bs), 7)]
+        return "unpack [%s]%%uint63 %d%%nat" % (";".join(words), len(bs) % 7 or 7)
+
     def s(self, bs):
         if len(bs) <= 24:
             return S(bs)
-        if bs not in self.names:
-            name = "b%d_" % len(self.names)
-            self.names[bs] = name
-            words = [str(int.from_bytes(bs[k:k + 7], "big")) for k in range(0, len(bs), 7)]
-            self.defs.append("let %s := unpack [%s]%%uint63 %d%%nat in" % (name, ";".join(words), len(bs) % 7 or 7))
-        return self.names[bs]
+        if bs in self.names:
+            return self.names[bs]
+        # segments: long runs of one byte are not listed (srep), the rest is packed in pieces
+        segs, k, lit = [], 0, bytearray()
+        if len(bs) > 4096:
+            n = len(bs)
+            while k < n:
+                j = k
+                while j < n and bs[j] == bs[k]:
+                    j += 1
+                if j - k >= 4096:
+                    if lit:
+                        segs.append(("lit", bytes(lit)))
+                        lit = bytearray()
+                    segs.append(("rep", bs[k], j - k))
+                else:
+                    lit += bs[k:j]
+                k = j
+            if lit:
+                segs.append(("lit", bytes(lit)))
+        else:
+            segs = [("lit", bs)]
+        parts = []
+        for sg in segs:
+            if sg[0] == "rep":
+                parts.append("(srep %d%%N %d%%N)" % (sg[1], sg[2]))
+            else:
+                for q in range(0, len(sg[1]), 28000):
+                    parts.append("(%s)" % self._packed(sg[1][q:q + 28000]))
+        term = parts[0] if len(parts) == 1 else "(String.concat EmptyString [%s])" % "; ".join(parts)
+        name = "b%d_" % len(self.names)
+        self.names[bs] = name
+        self.defs.append("let %s := %s in" % (name, term))
+        return name
 
     def wrap(self, term):
         return "(" + " ".join(self.defs) + " " + term + ")" if self.defs else term
@@ -147,7 +181,8 @@ def _encode_body(i, o, cfg):
         b_cfg=cfg,
         b_req_enc=_enc(i["reqEnc"], i["reqDecl"], i["reqTerm"]), b_req=S(_b(i["reqBody"])),
         b_status=Z(i["respStatus"]),
-        b_resp_enc=_enc(i["respEnc"], i["respDecl"], i["respTerm"]), b_resp=S(_b(i["respBody"])),
+        b_resp_enc=_enc(i["respEnc"], i["respDecl"], i["respTerm"]),
+        b_resp=S(b"z" * i["respFill"] if i.get("respFill") else _b(i["respBody"])),
         b_zip=B(i.get("zip")), b_minlen=Z(i.get("minLen") or 0),
         b_ae=("(Some %s)" % S(i["ae"].encode())) if i.get("ae") else "None", b_gz=S(_b(i.get("respGz"))),
         b_get=B(i.get("method") == "GET"), b_cmax=Z(i.get("cacheMax") or 0),
